@@ -777,6 +777,26 @@ class Class(Node):
             else:
                 self.classes[class_name] = other.classes[class_name]
 
+        # A package that was only known as a placeholder (created for a
+        # "within" clause) takes over the contents of its actual definition.
+        for attr in (
+            "imports",
+            "extends",
+            "symbols",
+            "functions",
+            "initial_equations",
+            "equations",
+            "initial_statements",
+            "statements",
+            "annotation",
+            "comment",
+        ):
+            if not getattr(self, attr) and getattr(other, attr):
+                setattr(self, attr, getattr(other, attr))
+        for attr in ("encapsulated", "partial", "final"):
+            if getattr(other, attr):
+                setattr(self, attr, True)
+
     @property
     def root(self):
         if self.parent is None:
